@@ -21,6 +21,7 @@ import (
 	"strconv"
 	"strings"
 	"sync"
+	"syscall"
 	"time"
 )
 
@@ -263,8 +264,48 @@ func runWorker(bin, prop string, seed, from, to uint64, dir string, n int, budge
 	var stderr bytes.Buffer
 	cmd.Stderr = &stderr
 	cmd.Stdout = &stderr
-	err := cmd.Run()
 	res := workerResult{from: from, to: to, status: status}
+	if errS := cmd.Start(); errS != nil {
+		res.exitCode = 2
+		res.stderr = "cannot start worker: " + errS.Error()
+		return res
+	}
+	// OS-level supervision: the in-process watchdog cannot run when a goroutine spins without a scheduling point
+	// (one P, no asynchronous preemption). If the worker's status file (index of the run in progress) has not
+	// changed for stallS seconds, ask the runtime for a goroutine dump (SIGQUIT) and end the process.
+	done := make(chan error, 1)
+	go func() { done <- cmd.Wait() }()
+	const stallS = 75
+	last, lastChange := "", time.Now()
+	var err error
+	stalled := false
+wait:
+	for {
+		select {
+		case err = <-done:
+			break wait
+		case <-time.After(time.Second):
+			b, _ := os.ReadFile(status)
+			if cur := string(b); cur != last {
+				last, lastChange = cur, time.Now()
+			} else if time.Since(lastChange) > stallS*time.Second {
+				stalled = true
+				_ = cmd.Process.Signal(syscall.SIGQUIT)
+				select {
+				case err = <-done:
+				case <-time.After(10 * time.Second):
+					_ = cmd.Process.Kill()
+					err = <-done
+				}
+				break wait
+			}
+		}
+	}
+	if stalled {
+		res.exitCode = 4
+		res.stderr = stderr.String()
+		return res
+	}
 	if err != nil {
 		res.exitCode = 1
 		if ee, ok := err.(*exec.ExitError); ok {
@@ -377,6 +418,24 @@ func check(prop, tier string, seed uint64, runsOverride int, workers int) int {
 			if r.exitCode == 3 {
 				fmt.Fprintf(os.Stderr, "HARNESS TROUBLE: worker [%d,%d) hit the real-time watchdog (wedge or hang inside the simulator):\n%s\n", r.from, r.to, tail(r.stderr, 6000))
 				trouble++
+				continue
+			}
+			if r.exitCode == 4 {
+				// no run completed for more than a minute of real time and the in-process watchdog did not fire: some
+				// goroutine is spinning. If it spins in library code (frames under /repo/), that is the library hanging.
+				idx := r.from
+				if b, err := os.ReadFile(r.status); err == nil {
+					if v, err := strconv.ParseUint(strings.TrimSpace(string(b)), 10, 64); err == nil {
+						idx = v
+					}
+				}
+				if where := spinningInLibrary(r.stderr); where != "" {
+					viols = append(viols, replayFile{Property: prop, Rule: prop + ".HANG", Sig: "library-goroutine-spins", Seed: seed, RunIndex: idx,
+						Violation: "a library goroutine runs without ever reaching a scheduling point (endless loop): " + where, Log: strings.Split(tail(r.stderr, 6000), "\n"), Engine: 1})
+				} else {
+					fmt.Fprintf(os.Stderr, "HARNESS TROUBLE: worker [%d,%d) made no progress for more than a minute (index %d) and was ended:\n%s\n", r.from, r.to, idx, tail(r.stderr, 6000))
+					trouble++
+				}
 				continue
 			}
 			// crash: find the run index and confirm in a fresh process
@@ -588,6 +647,33 @@ func looksLikePanic(s string) bool {
 		block = block[:e]
 	}
 	return strings.Contains(block, "/repo/")
+}
+
+// spinningInLibrary looks at a SIGQUIT goroutine dump: the goroutine that was running (not blocked) when the
+// signal arrived, if it has frames in library code (files under /repo/), is the one that spins.
+func spinningInLibrary(dump string) string {
+	for _, block := range strings.Split(dump, "\n\n") {
+		if !strings.HasPrefix(block, "goroutine ") {
+			continue
+		}
+		head := block
+		if i := strings.IndexByte(block, '\n'); i >= 0 {
+			head = block[:i]
+		}
+		if !(strings.Contains(head, "[running") || strings.Contains(head, "[runnable")) {
+			continue
+		}
+		if i := strings.Index(block, "/repo/"); i >= 0 {
+			// the innermost library frame: function name is on the line before the file line
+			lines := strings.Split(block, "\n")
+			for k, l := range lines {
+				if strings.Contains(l, "/repo/") && k > 0 {
+					return strings.TrimSpace(lines[k-1]) + " at " + strings.TrimSpace(l)
+				}
+			}
+		}
+	}
+	return ""
 }
 
 func firstPanicLine(s string) string {
